@@ -46,6 +46,8 @@ const (
 	PTwinIDs
 	PChurnNoise
 	PCtxDeadline
+	PDefenders
+	PLLJunk
 )
 
 var ProbeNames = map[int]string{
@@ -77,6 +79,8 @@ var ProbeNames = map[int]string{
 	PTwinIDs:               "two_clients_on_one_host_using_the_same_transaction_ids",
 	PChurnNoise:            "refused_two_record_registrations_between_churn_steps",
 	PCtxDeadline:           "query_context_with_its_own_deadline",
+	PDefenders:             "defend_name_callers_next_to_the_servers",
+	PLLJunk:                "ill_formed_or_response_datagrams_sent_to_the_llmnr_server",
 }
 
 var scenarioNames = [...]string{"nbns-server", "nbns-udp+tcp", "llmnr-server", "llmnr-client", "llmnr-client+server", "nbns-challenger", "nbns-lifecycle"}
@@ -87,7 +91,7 @@ func Run(seed uint64, index int64, o hx.Opts) *hx.Result {
 	en := hx.AllKinds()
 	cfg := rt.Config{Seed: seed, Replay: o.Replay, Verbose: o.Verbose, NPoints: o.NPoints, Bias: hx.Swarm(seed, en), MaxSteps: 2_000_000}
 	cfg.PCT = hx.SwarmPCT(seed)
-	if o.Scenario == "openum" || o.Scenario == "stopenum" {
+	if o.Scenario == "openum" || o.Scenario == "stopenum" || o.Scenario == "stopenum2" {
 		cfg.PCT = false
 		for k := range cfg.Bias {
 			cfg.Bias[k] = 0
@@ -108,6 +112,11 @@ func Run(seed uint64, index int64, o hx.Opts) *hx.Result {
 		if o.Scenario == "stopenum" {
 			res.Scenario = "stopenum"
 			bad = runStopEnum(w, res, index)
+			return
+		}
+		if o.Scenario == "stopenum2" {
+			res.Scenario = "stopenum2"
+			bad = runStopEnum2(w, res, index)
 			return
 		}
 		sc := hx.G(len(scenarioNames))
